@@ -556,14 +556,44 @@ class Fn:
                 if rv.get("k") in ("ref", "rawptr") and not proj(st["d"]):
                     refs[st["d"]["l"]].add(rv["p"]["l"])
         call_edges = []
+        # pointer provenance: P = cast/use/&(place rooted at Q) with P of pointer/reference type
+        ptr_src = defaultdict(set)
+        for i in range(self.n):
+            for st in self.stmts(i):
+                if proj(st["d"]):
+                    continue
+                pl_ = st["d"]["l"]
+                ty_ = self.locals[pl_]
+                if not (ty_.startswith("*") or ty_.startswith("&")):
+                    continue
+                rv = st["r"]
+                if rv.get("k") in ("cast", "use"):
+                    q = op_place(rv["o"])
+                    if q:
+                        ptr_src[pl_].add(q["l"])
+                elif rv.get("k") in ("ref", "rawptr"):
+                    ptr_src[pl_].add(rv["p"]["l"])
         for i in range(self.n):
             for st in self.stmts(i):
                 d = st["d"]["l"]
+                dsts = [d]
+                pj = proj(st["d"])
+                if pj and pj[0] == "*":
+                    # a store through a pointer also reaches what the pointer was derived from
+                    seen_, work_ = {d}, [d]
+                    while work_:
+                        x = work_.pop()
+                        for q in ptr_src.get(x, ()):
+                            if q not in seen_:
+                                seen_.add(q)
+                                work_.append(q)
+                    dsts = list(seen_)
                 for o in rv_operands(st["r"]):
                     p = op_place(o)
                     if p:
                         for l in place_locals(p):
-                            E[l].add(d)
+                            for dd in dsts:
+                                E[l].add(dd)
             t = self.term(i)
             if t["k"] == "call" and through_calls:
                 srcs = []
